@@ -63,7 +63,8 @@ Definition obs_eqb (s : hstate) (x : expect) : bool :=
   list_eqb addr_eqb (connect_log s) (x_connect x) &&
   (if status_code s =? 0 then list_eqb bytes_eqb (map up_stream (conns s)) (x_up x)
    else list_eqb2 between (conns s) (x_up x)) &&
-  bytes_eqb (client_stream s) (x_client x) &&
+  (* after an exception escaped handle_events the work is dropped at once: the client has a prefix of what was queued *)
+  (if status_code s <? 1000 then bytes_eqb (client_stream s) (x_client x) else is_prefix (x_client x) (client_stream s)) &&
   (status_code s =? x_status x) &&
   (if status_code s =? 0 then Bool.eqb (pending_request s) (x_pending x) else true).
 
